@@ -238,6 +238,13 @@ func init() {
 				check()
 			}
 		}
+		if only, ok := spec.Opt["only_tokens"].([]any); ok {
+			for _, t := range only {
+				seq = append(seq, fmt.Sprint(t))
+			}
+			step()
+			return
+		}
 		step()
 		var walk func(d int)
 		walk = func(d int) {
